@@ -520,6 +520,16 @@ def stepBatch (st : State) (toks : List String) : State × String :=
       (st, (if s.panicked then "panic " else "") ++ "sent=" ++ String.intercalate "," (s.sent.map fun o =>
         match o with | .value (some k) => "v:" ++ Hex.encode k | .value none => "nf" | .failed => "fail"))
     | _, _ => (st, "bad-op")
+  | "ws.run" :: _ =>
+    let toks : List Batch.WTok := ((get "script").splitOn ",").filterMap fun t =>
+      if t == "r" then some .resp else if t == "x" then some .brk
+      else if t.startsWith "s" then (t.drop 1).toString.toNat?.map .send
+      else if t.startsWith "t" then (t.drop 1).toString.toNat?.map .sendTimeout else none
+    let s := Batch.wrun Facts.writeStreamKeepsTimedOutRequests toks
+    let ids := toks.filterMap fun t => match t with | .send i => some i | .sendTimeout i => some i | _ => none
+    (st, String.intercalate " " (ids.map fun i =>
+      toString i ++ "=" ++ (match s.got.find? (·.1 == i) with
+        | some (_, .resp r) => toString r | some (_, .timeout) => "timeout" | some (_, .eof) => "eof" | none => "NONE")))
   | "km.run" :: _ =>
     let lists : List (List Key) := if get "lists" == "_" then [] else
       ((get "lists").splitOn ";").map fun l => if l == "" then [] else (l.splitOn ",").filterMap Hex.decode
@@ -857,7 +867,7 @@ def step (st : State) (line : String) : State × String :=
     else if t.startsWith "c." then stepCluster st toks
     else if t.startsWith "s." then stepSess st toks
     else if t.startsWith "q." || t.startsWith "lc." then stepAck st toks
-    else if t.startsWith "b." || t.startsWith "wb." || t.startsWith "rb." || t.startsWith "mg." || t.startsWith "km." then stepBatch st toks
+    else if t.startsWith "b." || t.startsWith "wb." || t.startsWith "rb." || t.startsWith "mg." || t.startsWith "km." || t.startsWith "ws." then stepBatch st toks
     else (st, "bad-op")
 
 end Oxia.Driver
